@@ -756,3 +756,133 @@ Print Assumptions C05_generated_read_frozen.
 Print Assumptions C05_generated_model_with_feedback_is_model.
 Print Assumptions C05_generated_model_with_feedback_none.
 Print Assumptions C05_generated_call_distant_node_is_subsender_cdn.
+
+
+(* ==================================================================================================================
+   Q-to-R bridge for the sub-model sender family (run/RunSubSender.v on model/SubSender.v; proofs/QR_bridge_SubSender.v, on top
+   of proofs/QR_bridge_Model.v for the ProxySem part and the node kinds).  The correspondence run of the family `subsender`
+   evaluates [chk_subsender] at F := Q.  SubSender's state is ProxySem's per-node record (related point-wise by the entry-wise
+   embedding, [lenv_rel]) plus the `_fb_flag` bits and the forward-entry counters, which are number-free and therefore EQUAL
+   point-wise ([ss_rel]); sub-model senders are related field by field ([sub_rel]: same node / input / output ids and fan-in,
+   reduced-sender nodes related by [nd_rel]).  cdn (DistantFeedback.call_distant_node with the in-sync test and the reduced
+   sender), run_reduced, node_call, step_s, run_s, call_s map related arguments to related results with the SAME success flag.
+   No shape hypothesis, no side condition, no functional extensionality.  After this block the cone of this file imports Reals;
+   the theorems above are unaffected (see their Print Assumptions lines above). *)
+From Coq Require Import Reals Qreals.
+From RV Require Import base.NumHom run.RunModel run.RunSubSender proofs.QR_bridge_Model proofs.QR_bridge_SubSender.
+
+Theorem C05_sub_bridge_relations_spelled :
+  (forall (s : @sstate Q) (sR : @sstate R), ss_rel Q2R s sR <->
+     (forall n, SubSender.le sR n = mkLN (qv2r (lst (SubSender.le s n))) (qm2r (lhid (SubSender.le s n)))
+                                         (option_map qv2r (proxy (SubSender.le s n))) (option_map qv2r (clamp (SubSender.le s n)))) /\
+     (forall n, fl sR n = fl s n) /\ (forall n, cn sR n = cn s n)) /\
+  (forall (sd : @subm Q) (sdR : @subm R), sub_rel Q2R sd sdR <->
+     s_nodes sdR = s_nodes sd /\ s_ins sdR = s_ins sd /\ s_outs sdR = s_outs sd /\
+     Forall2 (nd_rel Q2R) (s_red sd) (s_red sdR) /\ forall n, s_par sdR n = s_par sd n) /\
+  (forall (sm : nat -> option (@subm Q)) (smR : nat -> option (@subm R)), sm_rel Q2R sm smR <->
+     forall n, match sm n, smR n with Some a, Some b => sub_rel Q2R a b | None, None => True | _, _ => False end).
+Proof. split; [|split]; intros; exact (iff_refl _). Qed.
+
+(* DistantFeedback.call_distant_node of a receiver (clamp / in-sync reading of the output nodes' proxies / re-run of the reduced
+   sender): value, state afterwards, success flag *)
+Theorem C05_Qcdn_embeds_in_R (sm : nat -> option (@subm Q)) (smR : nat -> option (@subm R)) (d : @ndesc Q) (dR : @ndesc R)
+        (s : @sstate Q) (sR : @sstate R) :
+  sm_rel Q2R sm smR -> nd_rel Q2R d dR -> ss_rel Q2R s sR ->
+  fst (fst (cdn smR dR sR)) = option_map qv2r (fst (fst (cdn sm d s))) /\
+  ss_rel Q2R (snd (fst (cdn sm d s))) (snd (fst (cdn smR dR sR))) /\
+  snd (cdn smR dR sR) = snd (cdn sm d s).
+Proof. exact (cdn_rel Q2R sm smR d dR s sR). Qed.
+Theorem C05_Qrun_reduced_embeds_in_R (sd : @subm Q) (sdR : @subm R) (s : @sstate Q) (sR : @sstate R) :
+  sub_rel Q2R sd sdR -> ss_rel Q2R s sR ->
+  ss_rel Q2R (fst (run_reduced sd s)) (fst (run_reduced sdR sR)) /\ snd (run_reduced sdR sR) = snd (run_reduced sd s).
+Proof. exact (run_reduced_rel Q2R sd sdR s sR). Qed.
+(* one step of Model._run, a whole Model.run on one sequence, Model.call *)
+Theorem C05_Qstep_s_embeds_in_R (m : @model Q) (mR : @model R) sm smR forced forcedR ext extR (s : @sstate Q) (sR : @sstate R) :
+  m_rel Q2R m mR -> sm_rel Q2R sm smR -> opt_rel Q2R forced forcedR -> opt_rel Q2R ext extR -> ss_rel Q2R s sR ->
+  ss_rel Q2R (fst (step_s m sm forced ext s)) (fst (step_s mR smR forcedR extR sR)) /\
+  snd (step_s mR smR forcedR extR sR) = snd (step_s m sm forced ext s).
+Proof. exact (step_s_rel Q2R m mR sm smR forced forcedR ext extR s sR). Qed.
+Theorem C05_Qrun_s_embeds_in_R (m : @model Q) (mR : @model R) sm smR steps stepsR (s : @sstate Q) (sR : @sstate R) :
+  m_rel Q2R m mR -> sm_rel Q2R sm smR -> steps_rel Q2R steps stepsR -> ss_rel Q2R s sR ->
+  ss_rel Q2R (fst (fst (run_s m sm steps s))) (fst (fst (run_s mR smR stepsR sR))) /\
+  snd (fst (run_s mR smR stepsR sR)) = map qm2r (snd (fst (run_s m sm steps s))) /\
+  snd (run_s mR smR stepsR sR) = snd (run_s m sm steps s).
+Proof. exact (run_s_rel Q2R m mR sm smR steps stepsR s sR). Qed.
+Theorem C05_Qcall_s_embeds_in_R (m : @model Q) (mR : @model R) sm smR forced forcedR ext extR (s : @sstate Q) (sR : @sstate R) :
+  m_rel Q2R m mR -> sm_rel Q2R sm smR -> opt_rel Q2R forced forcedR -> opt_rel Q2R ext extR -> ss_rel Q2R s sR ->
+  ss_rel Q2R (fst (fst (call_s m sm forced ext s))) (fst (fst (call_s mR smR forcedR extR sR))) /\
+  snd (fst (call_s mR smR forcedR extR sR)) = map qm2r (snd (fst (call_s m sm forced ext s))) /\
+  snd (call_s mR smR forcedR extR sR) = snd (call_s m sm forced ext s).
+Proof. exact (call_s_rel Q2R m mR sm smR forced forcedR ext extR s sR). Qed.
+
+(* the Q- and R-objects built from one scenario (also with forward functions switched to `raise`) are related *)
+Theorem C05_sub_scenario_objects_related (nodes : list snode) (fail : list nat) (sm : RunModel.smodel) (subs : list ssub) :
+  m_rel Q2R (model_of nodes fail sm) (model_ofR nodes fail sm) /\
+  sm_rel Q2R (subs_of nodes fail subs) (subs_ofR nodes fail subs) /\
+  ss_rel Q2R (init_sstate nodes) (init_sstateR nodes).
+Proof. exact (conj (model_of_rel nodes fail sm) (conj (subs_of_rel nodes fail subs) (init_sstate_rel nodes))). Qed.
+
+(* the verdict of the family's runner is a statement about the R-instance: [chk_subsender ... = true] (vm_compute at Q) implies
+   that the history executed by the R-model on the embedded data, from the embedded fresh state, has operation by operation the
+   observed success flag, outputs within 1e-9*max(1,|model|) of the observed ones when it succeeds, node states within that
+   tolerance, EXACTLY the observed `_fb_flag` bits and forward-entry counters, and the observed at-rest flag *)
+Theorem C05_chk_subsender_is_about_R_model (nodes : list snode) (models : list RunModel.smodel) (subs : list ssub) (l : list (sop * sobs)) :
+  chk_subsender nodes models subs l = true -> topo_ok models = true /\ shist_okR nodes models subs l (init_sstateR nodes).
+Proof. exact (chk_subsender_is_about_R_model nodes models subs l). Qed.
+Theorem C05_shist_okR_spelled (nodes : list snode) (models : list RunModel.smodel) (subs : list ssub) (o : sop) (ob : sobs) rest (s : @sstate R) :
+  shist_okR nodes models subs ((o, ob) :: rest) s <->
+  (let r := srun_oneR nodes models subs o s in
+   snd r = so_ok ob /\
+   (snd r = true -> Forall2 (Forall2 (Forall2 rclose)) (snd (fst r)) (map qm2r (so_outs ob))) /\
+   Forall (fun p => Forall2 rclose (lst (SubSender.le (fst (fst r)) (fst p))) (qv2r (snd p))) (so_states ob) /\
+   Forall (fun p => fl (fst (fst r)) (fst p) = snd p) (so_flags ob) /\
+   Forall (fun p => cn (fst (fst r)) (fst p) = snd p) (so_calls ob) /\
+   at_restbR nodes (SubSender.le (fst (fst r))) = so_rest ob /\
+   shist_okR nodes models subs rest (fst (fst r))).
+Proof. exact (iff_refl _). Qed.
+
+(* non-vacuity: affine 0 -> accumulator 1 is the SUB-MODEL sender of receiver 2 (x + feedback/2).  Model.run over two steps;
+   two stand-alone calls of the receiver (in sync: the sender's output state is read, only the receiver's flag flips);
+   Model.call in which node 1 raises (node 0 has advanced: flags out of sync); a stand-alone call of the receiver, which RE-RUNS
+   the reduced sender (node 1 advances, its counter goes from 3 to 4); two calls under a forced feedback.  The runner answers
+   true on the exact values, hence the R-instance history is within the tolerance of them with the same flags and counters. *)
+Definition exS_nodes : list snode :=
+  [mkSN 0 (KFun 2 (1#2))%Q None 1 []; mkSN 1 KAcc None 1 []; mkSN 2 (KFbAdd (1#2))%Q (Some (FbModel [1])) 1 []].
+Definition exS_models : list RunModel.smodel := [mkSM [0; 1; 2] [(1, [0]); (2, [1])] [2]].
+Definition exS_subs : list ssub := [mkSSub 2 [0; 1] [0] [1] [1] [(1, [0])]].
+Definition exS_hist : list (sop * sobs) :=
+  [(SRun 0 [[(0%nat, [1#2])]; [(0%nat, [-1#1])]]%Q false [] [],
+    mkSObs true [[[3#2]]; [[3#4]]]%Q [(0%nat, [-3#2]); (1%nat, [0#1]); (2%nat, [3#4])]%Q
+           [(0%nat, true); (1%nat, true); (2%nat, true)] [(0, 2); (1, 2); (2, 2)] true);
+   (SCallN 2 [1#1]%Q [],
+    mkSObs true [] [(0%nat, [-3#2]); (1%nat, [0#1]); (2%nat, [1#1])]%Q
+           [(0%nat, true); (1%nat, true); (2%nat, false)] [(0, 2); (1, 2); (2, 3)] true);
+   (SCallN 2 [1#1]%Q [],
+    mkSObs true [] [(0%nat, [-3#2]); (1%nat, [0#1]); (2%nat, [1#1])]%Q
+           [(0%nat, true); (1%nat, true); (2%nat, true)] [(0, 2); (1, 2); (2, 4)] true);
+   (SCallM 0 [(0%nat, [1#4]%Q)] [] [1],
+    mkSObs false [] [(0%nat, [1#1]); (1%nat, [0#1]); (2%nat, [1#1])]%Q
+           [(0%nat, false); (1%nat, true); (2%nat, true)] [(0, 3); (1, 3); (2, 4)] true);
+   (SCallN 2 [1#1]%Q [],
+    mkSObs true [] [(0%nat, [1#1]); (1%nat, [1#1]); (2%nat, [3#2])]%Q
+           [(0%nat, false); (1%nat, false); (2%nat, false)] [(0, 3); (1, 4); (2, 5)] true);
+   (SWithFb 2 [4#1]%Q [[1#1]; [2#1]]%Q,
+    mkSObs true [] [(0%nat, [1#1]); (1%nat, [1#1]); (2%nat, [5#2])]%Q
+           [(0%nat, false); (1%nat, false); (2%nat, false)] [(0, 3); (1, 4); (2, 7)] true)].
+Example C05_sub_bridge_example :
+  chk_subsender exS_nodes exS_models exS_subs exS_hist = true /\
+  shist_okR exS_nodes exS_models exS_subs exS_hist (init_sstateR exS_nodes).
+Proof.
+  assert (E : chk_subsender exS_nodes exS_models exS_subs exS_hist = true) by (vm_compute; reflexivity).
+  split; [exact E | apply (C05_chk_subsender_is_about_R_model _ _ _ _ E)].
+Qed.
+
+Print Assumptions C05_sub_bridge_relations_spelled.
+Print Assumptions C05_Qcdn_embeds_in_R.
+Print Assumptions C05_Qrun_reduced_embeds_in_R.
+Print Assumptions C05_Qstep_s_embeds_in_R.
+Print Assumptions C05_Qrun_s_embeds_in_R.
+Print Assumptions C05_Qcall_s_embeds_in_R.
+Print Assumptions C05_sub_scenario_objects_related.
+Print Assumptions C05_chk_subsender_is_about_R_model.
+Print Assumptions C05_shist_okR_spelled.
